@@ -143,7 +143,9 @@ class Effects(object):
 
     def may_write_field(self, f, name):
         w = self.of(f)['w']
-        return ('field', name) in w or any(x[0] == 'object' for x in w)
+        # a libc writer whose destination is the object itself (memset(cb, ...)): every member; a destination that is a fresh
+        # malloc/calloc block cannot be the session object (only a realloc of it can)
+        return ('field', name) in w or any(x[0] == 'object' and (not isinstance(x[1], str) or 'realloc' in x[1]) for x in w)
 
     def may_write_elems(self, f, name):
         return ('elems', name) in self.of(f)['w']
